@@ -38,7 +38,7 @@ static Vector point_in(Rng& r, const IntervalVector& b) {
   return p;
 }
 
-struct Built { Function* f; Array<const ExprSymbol>* args; string dag; int nvar; int rows, cols; };
+struct Built { Function* f; Array<const ExprSymbol>* args; string dag; int nvar; int rows, cols; vector<const ExprNode*> scomps; /* scalar components (family with restricted domains) */ };
 static Built build(Rng& r, GenCfg cfg, bool vec_image, bool mat_image = false) {
   Built b; ExprGen g(r, cfg);
   int ns = r.range(1, 3);
@@ -162,6 +162,32 @@ static Built build_dotpow(Rng& r) {
   return b;
 }
 
+
+// vector of scalar expressions some of which have a restricted domain (sqrt): with the history "a call on a box outside the
+// domain, then calls on boxes inside" the flags left by the first call must not survive
+static Built build_dom(Rng& r) {
+  Built b; int nv = r.range(2, 3); b.args = new Array<const ExprSymbol>(nv); b.nvar = nv;
+  for (int i = 0; i < nv; i++) b.args->set_ref(i, ExprSymbol::new_(("x" + to_string(i)).c_str(), Dim::scalar()));
+  const Array<const ExprSymbol>& x = *b.args;
+  int m = r.range(2, 4); Array<const ExprNode> comps(m);
+  for (int j = 0; j < m; j++) {
+    const ExprSymbol& a = x[r.below(nv)]; const ExprSymbol& c = x[r.below(nv)];
+    switch (r.below(5)) {
+      case 0: comps.set_ref(j, sqrt(a + (double)r.range(0, 8)) * c); break;                 // defined for a >= -k only; perfect squares at integer points
+      case 1: comps.set_ref(j, a * sqr(c) + (double)r.range(-3, 3)); break;
+      case 2: comps.set_ref(j, a + 2.0 * c); break;
+      case 3: comps.set_ref(j, sqrt(sqr(a) + (double)(1 + r.range(0, 3) * r.range(0, 3))) - c); break;      // (never sqrt(a^2): not differentiable at 0, 0/0 in the chain rule)
+      default: comps.set_ref(j, sqrt(a) + sqrt(c + 1.0)); break;
+    }
+    b.scomps.push_back(&comps[j]);
+  }
+  const ExprNode& e = r.coin(80) ? (const ExprNode&)ExprVector::new_col(comps) : (const ExprNode&)ExprVector::new_row(comps);
+  b.rows = r.coin(80) ? m : 1; b.cols = b.rows == 1 ? m : 1; if (&e.dim && e.dim.type() == Dim::ROW_VECTOR) { b.rows = 1; b.cols = m; } else { b.rows = m; b.cols = 1; }
+  b.dag = dump_expr(e, x);
+  b.f = new Function(x, e, "f");
+  return b;
+}
+
 // a function over vector / matrix symbols built by the symbolic linear algebra generator
 static Built build_linalg(Rng& r, bool outer = true) {
   Built b; int n = r.range(2, 3); LinAlgGen g(r, n); g.outer = outer;
@@ -262,16 +288,27 @@ int main(int argc, char** argv) {
     try {
       if (wl == "c08") {
         GenCfg cfg; cfg.differentiable = r.coin(75); cfg.allow_vec = r.coin(60); cfg.allow_apply = r.coin(40); cfg.max_depth = r.range(1, 4);
-        Built b = r.coin(8) ? build_sm(r) : (r.coin(20) ? build_linalg(r, false) : build(r, cfg, true));
+        bool dom = r.coin(8);
+        Built b = dom ? build_dom(r) : (r.coin(8) ? build_sm(r) : (r.coin(20) ? build_linalg(r, false) : build(r, cfg, true)));
         if (b.rows > 1 && b.cols > 1) { delete b.f; continue; }   // (matrix-valued images: not in this workload)
         Function& f = *b.f; int m = b.rows * b.cols;
         for (int k = 0; k < 3; k++) {
           Vector c(b.nvar); for (int i = 0; i < b.nvar; i++) c[i] = dyadic(r);
           IntervalVector box = box_around(r, c);
           if (r.coin(40)) { IntervalVector other = box_around(r, c); try { f.jacobian(other); } catch (...) {} } // history
+          if (dom) for (int i = 0; i < b.nvar; i++) { double lo = (double)r.range(1, 9), w = r.range(0, 8) / 4.0; box[i] = Interval(lo, lo + w); }   // (strictly inside the domain: every square root is differentiable on the box)
+          if (dom ? r.coin(75) : r.coin(35)) { // history: a call on a box that leaves the definition domain (sqrt of negative values, division by 0): empty results, early exits
+            IntervalVector bad(b.nvar); double cc = r.coin(70) ? -64.0 : 0.0; for (int i = 0; i < b.nvar; i++) bad[i] = Interval(cc - r.range(0, 4), cc + (r.coin() ? 0 : r.range(0, 4)));
+            try { switch (r.below(4)) { case 0: f.jacobian(bad); break; case 1: f.eval_vector(bad); break; case 2: { IntervalMatrix Hb(m, b.nvar); f.hansen_matrix(bad, bad.mid(), Hb); break; }
+                                         default: { BitSet one = BitSet::singleton(m, r.below(m)); f.jacobian(bad, one); } } } catch (...) {} }
           IntervalMatrix J = f.jacobian(box);
           check_round_up("jacobian");
           for (int j = 0; j < 3; j++) { Vector p = point_in(r, box); EMIT("gradpt %s %s => %s\n", b.dag.c_str(), ptok(p).c_str(), J.is_empty() ? "E" : mtok(J).c_str()); }
+          // (restricted-domain family: square roots have no exact rational value: each row is judged by MPFR forward differentiation)
+          for (size_t q = 0; q < b.scomps.size(); q++) for (int j = 0; j < 2; j++) { Vector p = point_in(r, box); vector<double> lo, hi;
+            bool alldef = true; for (auto cq : b.scomps) { vector<double> l0, h0; if (!mp_grad(*cq, *b.args, p, l0, h0)) alldef = false; } if (!alldef) continue;   // (every component must be differentiable at the point)
+            if (!mp_grad(*b.scomps[q], *b.args, p, lo, hi)) continue;
+            EMIT("gradt %s#%zu %s %s %s => %s\n", b.dag.c_str(), q, tok(box).c_str(), ptok(p).c_str(), enc_tok(lo, hi).c_str(), J.is_empty() ? "E" : tok(IntervalVector(J[q])).c_str()); }
           if (m == 1) { IntervalVector g = f.gradient(box); Vector p = point_in(r, box); EMIT("gradpt %s %s => %s\n", b.dag.c_str(), ptok(p).c_str(), g.is_empty() ? "E" : mtok(g, true).c_str()); }
           if (m > 1) { // some rows only
             BitSet rows = BitSet::empty(m); string sel; for (int q = 0; q < m; q++) if (r.coin()) { if (!sel.empty()) sel += "."; sel += to_string(q); rows.add(q); }
@@ -324,6 +361,25 @@ int main(int argc, char** argv) {
               if (df) delete df;
             }
           }
+        }
+      } else if (wl == "c12" && r.coin(10)) {
+        // one ExprDiff object for a batch of expressions over the same symbols, one of which cannot be differentiated (saw / chi raise
+        // ExprDiffException): the derivatives computed AFTER the failure must not be polluted by it
+        int nv = r.range(2, 3);
+        Array<const ExprSymbol> x(nv), xn(nv); for (int i = 0; i < nv; i++) { x.set_ref(i, ExprSymbol::new_(("x" + to_string(i)).c_str(), Dim::scalar())); xn.set_ref(i, ExprSymbol::new_(("x" + to_string(i)).c_str(), Dim::scalar())); }
+        GenCfg cfg; cfg.differentiable = true; cfg.allow_vec = false; cfg.allow_apply = false; cfg.max_depth = 2;
+        ExprGen g(r, cfg); for (int i = 0; i < nv; i++) g.syms.push_back(&x[i]);
+        ExprDiff D(x, xn);
+        for (int k = 0; k < 4; k++) {
+          const ExprNode* e = &g.gen(1, 1, 2);
+          bool poison = (k == 1) || r.coin(25);
+          if (poison) e = r.coin() ? &(*e * saw(x[r.below(nv)]) + x[0]) : &(chi(x[0], *e, x[nv - 1]) + *e);
+          try {
+            const ExprNode& de = D.diff(*e, x);
+            string fd = dump_expr(*e, x), dd = dump_expr(de, xn);
+            EMIT("diffnf %s %s %d => 1\n", fd.c_str(), dd.c_str(), nv);
+            for (int q = 0; q < 2; q++) { Vector p(nv); for (int i = 0; i < nv; i++) p[i] = dyadic(r); EMIT("diffpt %s %s %s => 1\n", fd.c_str(), dd.c_str(), ptok(p).c_str()); }
+          } catch (ExprDiffException&) { EMIT("diffunsupported x => 0\n"); }
         }
       } else if (wl == "c12" && r.coin(12)) {
         // mutable constants: differentiate while they hold special values, change them, then compare
